@@ -109,6 +109,7 @@ class Flow:
         self.empties_delivered = collections.Counter()
         self.next_ordered = 0
         self.post_heal_from = None
+        self.probe_from = None
 
 
 class Chan:
@@ -699,9 +700,9 @@ class SctpRig:
                     continue
                 start = 0
                 if post_heal_only:
-                    if flow.post_heal_from is None:
+                    if flow.probe_from is None:
                         continue
-                    start = flow.post_heal_from
+                    start = flow.probe_from
                 # empties on unordered/PR flows are tracked by counters, others by index
                 missing = []
                 for i in range(start, len(flow.sent)):
@@ -771,14 +772,19 @@ class SctpRig:
                     self.violation("stall", None, f"{label}: quiescent with bufferedAmount={obj.bufferedAmount} on {chan.uid}@{epn}",
                                    diagnostics=self.diagnostics())
 
-    def probe(self, nfrag=12):
-        """C02 (c): after quiescence, a burst larger than the congestion window on every open reliable channel."""
+    def probe(self, nfrag=12, include_pr=True):
+        """C02 (c) / C06 post-heal: after quiescence on the healed network, a burst larger than the congestion
+        window plus a small message on every open channel, in both directions.  Everything sent here must arrive,
+        on partially reliable channels too (the link is perfect and nothing from the fault period is outstanding)."""
         if not self.association_alive():
             return 0
         n = 0
         for chan in self.chans.values():
-            if not chan.reliable or chan.close_called:
+            if chan.close_called or (not chan.reliable and not include_pr):
                 continue
+            for flow in chan.flows.values():
+                if flow.probe_from is None:
+                    flow.probe_from = len(flow.sent)
             for ep in (self.A, self.B):
                 obj = chan.obj.get(ep.name)
                 if obj is not None and obj.readyState == "open" and self.other(ep).name in chan.obj \
